@@ -79,7 +79,7 @@ Fails(syms) == \E i \in 1..Len(syms) : syms[i] = "fail"
 \* input).  What it decodes to depends on the codec and on what follows it.  text-decode is of the WHOLE input: it
 \* fails when any part fails.
 HasJunk(c) == c.bj # None
-Foll(pos) == IF pos \in {"start", "incomment", "middle"} THEN "sp" ELSE IF pos = "eol_lf" THEN "lf"
+Foll(pos) == IF pos \in {"start", "aftercomment", "incomment", "middle"} THEN "sp" ELSE IF pos = "eol_lf" THEN "lf"
              ELSE IF pos = "eol_crlf" THEN "crlf" ELSE "eof"
 DecodeAll(codec, c) == DecodeWith(codec, Given(c)) \o
                        (IF HasJunk(c) THEN <<JunkT[Canon[codec]][c.bj][Foll(c.bp)]>> ELSE <<>>)
